@@ -20,7 +20,7 @@ func init() {
 			return evid.Spec{ID: "C09", Level: "model_checking", Exhaustive: true,
 				Rule: "a login waiting at a prompt while 70 (300) other sessions run to completion on its connection between its packets; 15 session scripts (a session whose request is numbered 255; ASCII 3-packet login good / bad password / unknown user, user in START, PAP good/bad, abort at step 2 and at step 3, command authorization permitted/denied, session authorization, accounting start, the same command lines asked by users with opposite rules), each with its own user so that a leaked " +
 					"user name, prompt state or continuation changes a reply. (a) one connection: every order-preserving interleaving of every ordered pair of scripts on two session ids, and of a fixed set of triples (thorough: all triples of 6 scripts); " +
-					"(b) two connections carrying the SAME session id: every packet-level interleaving of every pair. Oracle: each session's transcript (raw reply headers and decoded bodies, per packet) equals the transcript of the same script " +
+					"(b) two connections carrying the SAME session id: every packet-level interleaving of every pair; (d) every ordered pair of the 13 scripts that end their session, back to back on one connection under ONE session id. Oracle: each session's transcript (raw reply headers and decoded bodies, per packet) equals the transcript of the same script " +
 					"run alone on a freshly built server. (c) engine E2: every pair of 5 bcrypt-free scripts on two concurrent connection goroutines sharing a session id, every schedule within the deviation bound; plus every (abandoned login prefix on a connection that then closes, script on a new connection with the same session id) pair. states = distinct (script set, interleaving position) pairs; transitions = packets delivered; traces = interleavings on which all transcripts matched",
 				Assumptions: []string{"scripts are fixed packet lists (not adaptive to replies)"}}
 		},
@@ -51,6 +51,8 @@ type c09Case struct {
 	// Crowd > 0: between the packets of script Scripts[0] that many other sessions (one command authorization each,
 	// every one under its own session id) run to completion on the same connection
 	Crowd int `json:"crowd,omitempty"`
+	// Reuse: the scripts run one after the other on ONE connection under the SAME session id (each ends its session)
+	Reuse bool `json:"reuse_session_id,omitempty"`
 }
 
 // c09Crowd: a login that is waiting at a prompt while many other sessions come and go on its connection.
@@ -212,6 +214,12 @@ func c09Interleaving(c *Ctx, rw *rworld, e *rEnv, scripts [][]rPkt, cs c09Case, 
 			sid = 0 // the same session id on every connection
 			rc = conns[who]
 		}
+		if cs.Reuse {
+			sid = 0
+			if pos[who] == 0 {
+				p.SeqMode = "one" // a new session under the id the previous, finished session used
+			}
+		}
 		p.Sid = sid
 		info, err := rw.deliverR(rc, step, p)
 		if err != nil {
@@ -288,6 +296,24 @@ func c09Run(c *Ctx) {
 				run(c09Case{Scripts: []int{i, j}, Order: append([]int{}, order...)})
 				run(c09Case{Scripts: []int{i, j}, Order: append([]int{}, order...), TwoConn: true})
 			})
+		}
+	}
+	// (d) one session id used again: every ordered pair of the 13 scripts that end their session runs back to back on one
+	// connection under the same session id (different packet types and minor versions follow each other on that id)
+	for i := 0; i < 13; i++ {
+		for j := 0; j < 13; j++ {
+			job++
+			if !c.Mine(job) {
+				continue
+			}
+			var order []int
+			for range scripts[i] {
+				order = append(order, 0)
+			}
+			for range scripts[j] {
+				order = append(order, 1)
+			}
+			run(c09Case{Scripts: []int{i, j}, Order: order, Reuse: true})
 		}
 	}
 	// a login waiting at a prompt while 70 (thorough: also 300) other sessions come and go on its connection
